@@ -12,7 +12,12 @@
    The second disjunct of (2) is the sentinel corner (DESIGN finding n): the best agent starts as a placeholder
    with fitness FLOAT_MAX and is replaced only by a strictly smaller fitness, so as long as no evaluation is
    numerically below FLOAT_MAX it is never updated and its position is the initial array.  As soon as one
-   evaluation is below the sentinel, (1) forces the first disjunct ([C02_best_is_an_evaluated_argmin]). *)
+   evaluation is below the sentinel, (1) forces the first disjunct ([C02_best_is_an_evaluated_argmin]).
+
+   Second part of the file (HISTORIES OF TASKS ON ONE SPACE): the same for a task started in any start state, w.r.t.
+   the best agent it inherited ([dump_ok_from], [C02_best_is_min_from]), and for every finite history of tasks on one
+   space ([C02_task_histories], [C02_task_histories_spelled_out], [C02_task_histories_on_a_fresh_space]); the
+   per-program obligation for histories is  c02r_check prog_X = true  (it implies c02_check prog_X = true). *)
 From Coq Require Import String ZArith List Bool Lia.
 From OV Require Import Base.FloatKey Model.Clip Model.IR Model.IRSem Analysis.AbsInt Analysis.BestMin Analysis.BestMinSound Gen.Programs.
 Import ListNotations.
@@ -153,3 +158,265 @@ Proof.
     + right. reflexivity.
     + reflexivity.
 Qed.
+
+(* ================================================================ HISTORIES OF TASKS ON ONE SPACE
+   The theorems above speak about ONE task on a freshly built space.  A second task on the same space inherits the
+   agents (positions AND fitnesses) and the best agent of the first; run() re-creates only its local arrays (PSO
+   family).  The statements below are about a task started in ANY start state [c02_start]: positions clipped and no
+   agent's fitness below the best agent's (on a fresh space every fitness is the sentinel; a program that passes
+   [c02r_check] = [c02_check] + "ends with every position clipped and no agent below the best agent" re-establishes it),
+   w.r.t. the best agent B0 the task starts with, and about every finite history of such tasks.
+
+   [dump_ok_from B0 y h] says about a state y and the events h OF THE TASK before it:
+     (1) afit (best y) <= v for every  EvEval _ v  in h,
+     (2) EvEval (apos (best y)) (afit (best y)) is in h,  OR  best y = B0 (the inherited best agent, untouched),
+     (3) afit (best y) <= afit B0.
+   With B0 the placeholder of a fresh space (fitness KMAX) this is [dump_ok]. *)
+Theorem C02_dump_ok_from_means : forall B0 y h, dump_ok_from B0 y h <->
+  (forall c v, In (EvEval c v) h -> kle (afit (best y)) v = true) /\
+  (In (EvEval (apos (best y)) (afit (best y))) h \/ best y = B0) /\
+  kle (afit (best y)) (afit B0) = true.
+Proof. intros; reflexivity. Qed.
+
+Theorem C02_start_means : forall lbs ubs x, c02_start lbs ubs x <->
+  (forall ag, In ag (pop x) -> feasible lbs ubs (apos ag) = true /\ kle (afit (best x)) (afit ag) = true) /\
+  Feasible.wf lbs (apos (best x)) /\ Feasible.wf lbs (apos (tr x)) /\ (forall ag, In ag (sh x) -> Feasible.wf lbs (apos ag)).
+Proof.
+  intros. split.
+  - intros [H1 H2 H3 H4]. auto.
+  - intros (H1 & H2 & H3 & H4). constructor; assumption.
+Qed.
+
+Theorem C02_fresh_space_is_a_start : forall lbs ubs x, c02_init lbs ubs x -> c02_start lbs ubs x.
+Proof. exact c02_init_start. Qed.
+
+Theorem C02_on_a_fresh_space_from_is_dump_ok : forall B0 y h, afit B0 = KMAX -> dump_ok_from B0 y h -> dump_ok y h.
+Proof. exact dump_ok_from_fresh. Qed.
+
+Theorem C02_restart_check_implies_check : forall p, c02r_check p = true -> c02_check p = true.
+Proof. exact c02r_check_c02. Qed.
+
+(* ONE TASK, started in any start state x0 (B0 := best x0): at every record and at return the best agent satisfies
+   [dump_ok_from (best x0)] w.r.t. the evaluations of this task; evaluations are truthful; with the end-of-task
+   condition of [c02r_check] the task ends in a start state again. *)
+Theorem C02_best_is_min_from :
+  forall (p : stmt), c02_check p = true ->
+  forall (lbs ubs : list Z) (f : contents -> Z) (n_iter : nat),
+    Forall2 (fun l h => kle l h = true) lbs ubs ->
+  forall o x0 x' evs o', c02_start lbs ubs x0 ->
+    run lbs ubs f bhk n_iter okc_std p o x0 = Some (x', evs, o') ->
+    (forall h1 y h2, evs = h1 ++ EvDump y :: h2 -> dump_ok_from (best x0) y h1) /\
+    dump_ok_from (best x0) x' evs /\
+    (forall c v, In (EvEval c v) evs -> v = f c).
+Proof. intros p Hc lbs ubs f n_iter Hb. exact (c02_of_check_from lbs ubs f n_iter Hb p Hc). Qed.
+
+Theorem C02_task_ends_in_a_start :
+  forall (p : stmt), c02r_check p = true ->
+  forall (lbs ubs : list Z) (f : contents -> Z) (n_iter : nat),
+    Forall2 (fun l h => kle l h = true) lbs ubs ->
+  forall o x0 x' evs o', c02_start lbs ubs x0 ->
+    run lbs ubs f bhk n_iter okc_std p o x0 = Some (x', evs, o') ->
+    c02_start lbs ubs x'.
+Proof.
+  intros p Hc lbs ubs f n_iter Hb o x0 x' evs o' H0 Hr.
+  exact (proj2 (proj2 (proj2 (c02r_of_check_from lbs ubs f n_iter Hb p Hc o x0 x' evs o' H0 Hr)))).
+Qed.
+
+(* once the best agent is strictly below the inherited one it is an evaluated pair OF THIS TASK, its fitness is the
+   objective's value at its position, and it is the minimum of the values returned in this task *)
+Theorem C02_from_best_is_an_evaluated_argmin :
+  forall B0 y h, dump_ok_from B0 y h -> klt (afit (best y)) (afit B0) = true ->
+  In (EvEval (apos (best y)) (afit (best y))) h.
+Proof. exact dump_ok_from_argmin. Qed.
+
+Theorem C02_from_best_is_an_evaluated_argmin_ev :
+  forall B0 y h, dump_ok_from B0 y h -> (exists c v, In (EvEval c v) h /\ klt v (afit B0) = true) ->
+  In (EvEval (apos (best y)) (afit (best y))) h.
+Proof. exact dump_ok_from_argmin_ev. Qed.
+
+(* HISTORIES.  [tasks02 lbs ubs f n_iter ps x0 segs x']: the programs ps are run one after the other on one space,
+   each task started on [with_loc x lc] (its local arrays re-created, any contents), everything else inherited;
+   segs records, task by task, (state the task started in, its events, state it ended in); [hist segs] is the
+   concatenation of the events of all tasks.
+
+   For every finite list of programs passing [c02r_check], every box, objective, iteration count, oracles, every
+   start state x0:
+   (a) every task satisfies the one-task claim w.r.t. the best agent THAT TASK started with, and starts and ends in
+       a start state;
+   (b) the whole history satisfies the one-task claim w.r.t. the best agent the HISTORY started with: at every record
+       of every task and at the end, the best fitness is <= every value returned so far in the whole history and
+       <= the initial best fitness, and the best agent is an evaluated (argument, value) pair of some task so far or
+       still the best agent the history started with;
+   (c) every evaluation event of the history carries the objective's value at its argument. *)
+Theorem C02_task_histories :
+  forall (ps : list stmt), Forall (fun p => c02r_check p = true) ps ->
+  forall (lbs ubs : list Z) (f : contents -> Z) (n_iter : nat),
+    Forall2 (fun l h => kle l h = true) lbs ubs ->
+  forall x0 segs x', c02_start lbs ubs x0 -> tasks02 lbs ubs f n_iter ps x0 segs x' ->
+    Forall (task_ok lbs ubs f) segs /\
+    (forall h1 y h2, hist segs = h1 ++ EvDump y :: h2 -> dump_ok_from (best x0) y h1) /\
+    dump_ok_from (best x0) x' (hist segs) /\
+    (forall c v, In (EvEval c v) (hist segs) -> v = f c) /\
+    c02_start lbs ubs x'.
+Proof.
+  intros ps Hps lbs ubs f n_iter Hb x0 segs x' H0 Ht.
+  split; [exact (proj1 (c02_tasks_each lbs ubs f n_iter Hb ps Hps x0 segs x' H0 Ht))|].
+  exact (c02_tasks lbs ubs f n_iter Hb ps Hps x0 segs x' H0 Ht).
+Qed.
+
+Theorem C02_task_ok_means : forall lbs ubs f xs evs xe, task_ok lbs ubs f (xs, evs, xe) <->
+  c02_start lbs ubs xs /\
+  (forall h1 y h2, evs = h1 ++ EvDump y :: h2 -> dump_ok_from (best xs) y h1) /\
+  dump_ok_from (best xs) xe evs /\
+  (forall c v, In (EvEval c v) evs -> v = f c) /\
+  c02_start lbs ubs xe.
+Proof. intros; reflexivity. Qed.
+
+(* the same, spelled out *)
+Theorem C02_task_histories_spelled_out :
+  forall (ps : list stmt), Forall (fun p => c02r_check p = true) ps ->
+  forall (lbs ubs : list Z) (f : contents -> Z) (n_iter : nat),
+    Forall2 (fun l h => kle l h = true) lbs ubs ->
+  forall x0 segs x', c02_start lbs ubs x0 -> tasks02 lbs ubs f n_iter ps x0 segs x' ->
+    (* every task, started in xs with the inherited best agent B0 = best xs, ended in xe, with events evs *)
+    (forall xs evs xe, In (xs, evs, xe) segs ->
+       (* no agent starts below the inherited best agent *)
+       (forall ag, In ag (pop xs) -> kle (afit (best xs)) (afit ag) = true) /\
+       (* at every record y of the task, h1 the events of the task before it *)
+       (forall h1 y h2, evs = h1 ++ EvDump y :: h2 ->
+          (forall c v, In (EvEval c v) h1 -> kle (afit (best y)) v = true) /\
+          kle (afit (best y)) (afit (best xs)) = true /\
+          (In (EvEval (apos (best y)) (afit (best y))) h1 \/
+           (apos (best y) = apos (best xs) /\ afit (best y) = afit (best xs)))) /\
+       (* and when it returns *)
+       (forall c v, In (EvEval c v) evs -> kle (afit (best xe)) v = true) /\
+       kle (afit (best xe)) (afit (best xs)) = true /\
+       (In (EvEval (apos (best xe)) (afit (best xe))) evs \/
+        (apos (best xe) = apos (best xs) /\ afit (best xe) = afit (best xs)))) /\
+    (* the whole history: the recorded best fitness never increases, across tasks *)
+    (forall h1 y1 h2 y2 h3, hist segs = h1 ++ EvDump y1 :: h2 ++ EvDump y2 :: h3 ->
+       kle (afit (best y2)) (afit (best y1)) = true) /\
+    (forall h1 y1 h2, hist segs = h1 ++ EvDump y1 :: h2 -> kle (afit (best x')) (afit (best y1)) = true) /\
+    kle (afit (best x')) (afit (best x0)) = true /\
+    (* at the end the best agent is an evaluated pair of SOME task of the history, or still the initial one *)
+    (In (EvEval (apos (best x')) (afit (best x'))) (hist segs) \/ best x' = best x0) /\
+    (* and its fitness is a lower bound of everything any task of the history evaluated; evaluations are truthful *)
+    (forall c v, In (EvEval c v) (hist segs) -> kle (afit (best x')) v = true /\ v = f c).
+Proof.
+  intros ps Hps lbs ubs f n_iter Hb x0 segs x' H0 Ht.
+  destruct (C02_task_histories ps Hps lbs ubs f n_iter Hb x0 segs x' H0 Ht) as (A & B1 & B2 & B3 & _).
+  split; [|split; [|split; [|split; [|split]]]].
+  - intros xs evs xe Hin. rewrite Forall_forall in A. destruct (A _ Hin) as (T1 & T2 & T3 & _).
+    unfold seg_start, seg_evs, seg_end in *; simpl in *.
+    assert (Hw : forall y h, dump_ok_from (best xs) y h ->
+              (forall c v, In (EvEval c v) h -> kle (afit (best y)) v = true) /\
+              kle (afit (best y)) (afit (best xs)) = true /\
+              (In (EvEval (apos (best y)) (afit (best y))) h \/
+               (apos (best y) = apos (best xs) /\ afit (best y) = afit (best xs)))).
+    { intros y h (D1 & D2 & D3). split; [exact D1|split; [exact D3|]].
+      destruct D2 as [D2|D2]; [left; exact D2|right; rewrite D2; split; reflexivity]. }
+    split; [intros ag Hag; exact (proj2 (s_pop _ _ _ T1 ag Hag))|].
+    split; [intros h1 y h2 E; apply Hw; eapply T2; exact E|]. apply Hw. exact T3.
+  - exact (dumps_monotone_from (best x0) (hist segs) B1).
+  - exact (final_monotone_from (best x0) (hist segs) x' B2 B1).
+  - exact (proj2 (proj2 B2)).
+  - exact (proj1 (proj2 B2)).
+  - intros c v Hin. split; [exact (proj1 B2 c v Hin)|exact (B3 c v Hin)].
+Qed.
+
+(* a history that starts on a FRESH space: the original claim [dump_ok] (sentinel form) holds at every record of every
+   task and at the end w.r.t. the evaluations of the WHOLE history, so C02_best_is_an_evaluated_argmin,
+   C02_best_fit_is_the_minimum, C02_best_fit_is_true, C02_best_fitness_never_increases and
+   C02_returned_best_not_above_records apply to histories verbatim *)
+Theorem C02_task_histories_on_a_fresh_space :
+  forall (ps : list stmt), Forall (fun p => c02r_check p = true) ps ->
+  forall (lbs ubs : list Z) (f : contents -> Z) (n_iter : nat),
+    Forall2 (fun l h => kle l h = true) lbs ubs ->
+  forall x0 segs x', c02_init lbs ubs x0 -> tasks02 lbs ubs f n_iter ps x0 segs x' ->
+    (forall h1 y h2, hist segs = h1 ++ EvDump y :: h2 -> dump_ok y h1) /\
+    dump_ok x' (hist segs) /\
+    (forall c v, In (EvEval c v) (hist segs) -> v = f c).
+Proof.
+  intros ps Hps lbs ubs f n_iter Hb x0 segs x' H0 Ht.
+  destruct (C02_task_histories ps Hps lbs ubs f n_iter Hb x0 segs x' (c02_init_start _ _ _ H0) Ht) as (_ & B1 & B2 & B3 & _).
+  pose proof (proj1 (i_best _ _ _ H0)) as HB.
+  split; [|split; [|exact B3]].
+  - intros h1 y h2 E. eapply dump_ok_from_fresh; [exact HB|eapply B1; exact E].
+  - eapply dump_ok_from_fresh; eassumption.
+Qed.
+
+(* the histories of C01_task_histories (Analysis/FeasibleRelSound.v: [tasks], local arrays re-created as placeholders
+   out of INIT) are histories in the sense above, with the same concatenated events: C01 and C02 speak about the
+   same runs *)
+From OV Require Analysis.FeasibleRelSound.
+
+Lemma C01_histories_are_C02_histories :
+  forall lbs ubs f n_iter INIT ps x0 evs x',
+    FeasibleRelSound.tasks lbs ubs f n_iter INIT ps x0 evs x' ->
+    exists segs, tasks02 lbs ubs f n_iter ps x0 segs x' /\ hist segs = evs.
+Proof.
+  intros lbs ubs f n_iter INIT ps x0 evs x' Ht.
+  induction Ht as [x|p ps x lc o x1 evs1 o1 evs2 x2 Hlc Hrun Ht (segs & IH1 & IH2)].
+  - exists []. split; [constructor|reflexivity].
+  - exists ((x, evs1, x1) :: segs). split.
+    + econstructor; [exact Hrun|exact IH1].
+    + change (hist ((x, evs1, x1) :: segs)) with (evs1 ++ hist segs). rewrite IH2. reflexivity.
+Qed.
+
+Theorem C02_on_C01_histories :
+  forall (ps : list stmt), Forall (fun p => c02r_check p = true) ps ->
+  forall (lbs ubs : list Z) (f : contents -> Z) (n_iter : nat) (INIT : list contents),
+    Forall2 (fun l h => kle l h = true) lbs ubs ->
+  forall x0 evs x', c02_start lbs ubs x0 -> FeasibleRelSound.tasks lbs ubs f n_iter INIT ps x0 evs x' ->
+    (forall h1 y h2, evs = h1 ++ EvDump y :: h2 -> dump_ok_from (best x0) y h1) /\
+    dump_ok_from (best x0) x' evs /\
+    (forall c v, In (EvEval c v) evs -> v = f c) /\
+    c02_start lbs ubs x'.
+Proof.
+  intros ps Hps lbs ubs f n_iter INIT Hb x0 evs x' H0 Ht.
+  destruct (C01_histories_are_C02_histories _ _ _ _ _ _ _ _ _ Ht) as (segs & Ht2 & <-).
+  exact (proj2 (C02_task_histories ps Hps lbs ubs f n_iter Hb x0 segs x' H0 Ht2)).
+Qed.
+
+(* ---------------------------------------------------------------- the end-of-task condition separates *)
+Definition ex_greedy : stmt := ex_prog (ex_trial (If (FitLt Tr Cur) (Seq (CopyPos Cur Tr) (CopyFit Cur Tr)) Skip)).
+Example C02_restart_check_separates :
+  (* greedy trial replacement: a task that can be followed by another *)
+  c02r_check ex_greedy = true /\
+  (* ... followed by a move of the agents that is not clipped: fine for this task, but the next one would start
+     by evaluating unclipped positions *)
+  c02_check (Seq ex_greedy (ForSlots (Havoc InPlace Cur))) = true /\
+  c02r_check (Seq ex_greedy (ForSlots (Havoc InPlace Cur))) = false /\
+  (* ... followed by a re-evaluation that the best agent does not see: an agent may end below the best agent, and the
+     next task's "no agent below the inherited best" would fail *)
+  c02r_check (Seq ex_greedy (ForSlots (Seq (Havoc InPlace Cur) (Seq (Clip Cur) (Eval Cur))))) = false /\
+  (* moving and clipping one indexed slot (WCA's raining process) keeps the other slots clipped *)
+  c02r_check (Seq ex_greedy (RepeatAny (Seq (ChooseIdx 1) (Seq (Havoc Fresh (Slot 1)) (Clip (Slot 1)))))) = true.
+Proof. repeat split; vm_compute; reflexivity. Qed.
+
+(* ---------------------------------------------------------------- non-vacuity: two PSO tasks on one space *)
+Definition ex_oracle_pso2 : list answer := [ACont [[Some 5%Z]]; ACont [[Some 1%Z]]].
+Example C02_nonvacuous_two_tasks :
+  Forall (fun p => c02r_check p = true) [prog_PSO; prog_PSO] /\ c02_start ex_lbs ex_ubs ex_x0 /\
+  exists x1 evs1 x2 evs2,
+    tasks02 ex_lbs ex_ubs ex_f 1 [prog_PSO; prog_PSO] ex_x0 [(ex_x0, evs1, x1); (x1, evs2, x2)] x2 /\
+    eval_vals evs1 = [3%Z; 7%Z; 10%Z; 0%Z] /\ afit (best x1) = 0%Z /\
+    (* the second task starts with the fitnesses 3 and 0 (PSO keeps the best value seen at a slot) and the best
+       agent (0, 0) of the first: nothing is below the inherited best *)
+    map afit (pop x1) = [3%Z; 0%Z] /\
+    eval_vals evs2 = [10%Z; 0%Z; 5%Z; 1%Z] /\ apos (best x2) = [[Some 0%Z]] /\ afit (best x2) = 0%Z.
+Proof.
+  split; [repeat constructor; vm_compute; reflexivity|]. split; [apply c02_init_start, ex_init|].
+  eexists; eexists; eexists; eexists. split.
+  - eapply tasks02_cons with (lc := [ex_zero; ex_zero]) (o := ex_oracle_pso); [vm_compute; reflexivity|].
+    eapply tasks02_cons with (lc := [ex_zero; ex_zero]) (o := ex_oracle_pso2); [vm_compute; reflexivity|]. apply tasks02_nil.
+  - repeat split; vm_compute; reflexivity.
+Qed.
+
+Print Assumptions C02_task_histories.
+Print Assumptions C02_task_histories_spelled_out.
+Print Assumptions C02_task_histories_on_a_fresh_space.
+Print Assumptions C02_on_C01_histories.
+Print Assumptions C02_best_is_min_from.
+Print Assumptions C02_task_ends_in_a_start.
+Print Assumptions C02_best_is_min.
